@@ -126,6 +126,11 @@ def decide(pid, tier, seed, jobs, record, no_bounded, t0):
             guard_problems.append(f"{f}: zero obligations generated")
     bounded_only = not fns
 
+    # ---- Lean lemma library (thorough tier): rebuilt offline and audited; a failure is a problem of the machinery, not a violation
+    lean = run_lean() if tier == "thorough" else {"ran": False, "note": "the Lean library is rebuilt and audited by the thorough tier (lean/check.sh)"}
+    if lean.get("ran") and not lean.get("passed"):
+        guard_problems.append("Lean lemma library did not build / audit cleanly: " + lean.get("tail", "")[-300:])
+
     # ---- bounded stand-in
     bounded = None
     if not no_bounded and os.path.exists(os.path.join(VERIF, "bounded", "props", f"{pid}.py")):
@@ -188,6 +193,7 @@ def decide(pid, tier, seed, jobs, record, no_bounded, t0):
     # ---- evidence
     ev = evidence(pid, tier, seed, meta, reg, fns, results, proof_obls, discharged, refuted, unknown, covers,
                   undecided_fns, bounded, violations, guard_problems, known_hits, time.time() - t0)
+    ev["coverage"]["lean_library"] = lean
     evdir = os.environ.get("VERIF_EVIDENCE_DIR", os.path.join(VERIF, "evidence"))   # (redirected only by tools/seeded_matrix.py)
     os.makedirs(evdir, exist_ok=True)
     json.dump(ev, open(os.path.join(evdir, f"{pid}.json"), "w"), indent=1)
@@ -207,6 +213,36 @@ def decide(pid, tier, seed, jobs, record, no_bounded, t0):
     if undecided:
         return 2
     return 0
+
+
+def run_lean():
+    """lean/check.sh under a lock (thorough checks of several properties may run at the same time): source scan for sorry/axiom,
+    offline lake build, #print axioms audit, leanchecker replay.  Returns what it printed about each headline theorem."""
+    import fcntl
+    sh = os.path.join(VERIF, "lean", "check.sh")
+    if not os.path.exists(sh):
+        return {"ran": False, "note": "lean/check.sh missing"}
+    os.makedirs(os.path.join(VERIF, "lean", ".lake"), exist_ok=True)
+    t = time.time()
+    with open(os.path.join(VERIF, "lean", ".lake", "check.lock"), "w") as lock:
+        fcntl.flock(lock, fcntl.LOCK_EX)
+        stamp = os.path.join(VERIF, "lean", ".lake", "check.ok")
+        srcs = [os.path.join(dp, f) for dp, _, fs in os.walk(os.path.join(VERIF, "lean")) if ".lake" not in dp for f in fs if f.endswith((".lean", ".toml", ".sh"))]
+        newest = max(os.path.getmtime(f) for f in srcs)
+        if os.path.exists(stamp) and os.path.getmtime(stamp) > newest and time.time() - os.path.getmtime(stamp) < 6 * 3600:
+            out = open(stamp).read()       # audited by another thorough check of this session: same sources, same result
+            rc = 0
+        else:
+            try:
+                p = subprocess.run([sh], cwd=os.path.join(VERIF, "lean"), capture_output=True, text=True, timeout=1800)
+                out, rc = p.stdout + p.stderr, p.returncode
+            except subprocess.TimeoutExpired:
+                out, rc = "lean/check.sh timed out after 1800 s", 2
+            if rc == 0:
+                open(stamp, "w").write(out)
+    lemmas = [l.strip() for l in out.splitlines() if l.startswith("LEMMA ")]
+    return {"ran": True, "passed": rc == 0 and "ALL CHECKS PASSED" in out, "headline_theorems": len(lemmas), "lemmas": lemmas,
+            "seconds": round(time.time() - t, 1), "tail": out[-600:] if rc != 0 else ""}
 
 
 def run_bounded(pid, tier, seed, jobs):
